@@ -1,6 +1,8 @@
 package keeper
 
 import (
+	"sort"
+
 	errorsmod "cosmossdk.io/errors"
 	sdk "github.com/cosmos/cosmos-sdk/types"
 	sdkerrors "github.com/cosmos/cosmos-sdk/types/errors"
@@ -58,7 +60,15 @@ func (dtf ValidateTokenFeeDecorator) AnteHandle(ctx sdk.Context, tx sdk.Tx, simu
 		}
 	}
 
-	for addr, fee := range feeMap {
+	// check the owners in a fixed order: the gas consumed before a rejection
+	// must not depend on map iteration order
+	addrs := make([]string, 0, len(feeMap))
+	for addr := range feeMap {
+		addrs = append(addrs, addr)
+	}
+	sort.Strings(addrs)
+	for _, addr := range addrs {
+		fee := feeMap[addr]
 		owner, _ := sdk.AccAddressFromBech32(addr)
 		balance := dtf.bk.GetBalance(ctx, owner, fee.Denom)
 		if balance.IsLT(fee) {
